@@ -1,6 +1,7 @@
 package sym
 
 import (
+	"os"
 	"time"
 	"fmt"
 	"go/token"
@@ -117,6 +118,7 @@ type Machine struct {
 	cur      *G
 	abort    *abortInfo
 	condWaiters []*G
+	quiescing bool
 	killing  bool
 	schedOn  bool
 	preempts int
@@ -152,6 +154,9 @@ type Machine struct {
 	pathStart  time.Time
 
 	known map[uint64][]knownCond // conditions already decided on this path
+	dom   map[string]*[4]uint64  // feasible values of 8-bit variables constrained only by single-variable conditions
+	multi map[string]bool         // variables occurring in a multi-variable (or UF) constraint
+	DomHits int
 	pool  []*Assignment          // models of the current path condition
 	PoolHits, KnownHits int
 }
@@ -181,6 +186,7 @@ type Config struct {
 	Trace        bool
 	Tier         int
 	MaxPathSecs  int
+	NoFastPath   bool // decide every branch with the solver (cross-check of the byte-domain fast path)
 }
 
 func DefaultConfig() Config {
@@ -255,6 +261,7 @@ func (m *Machine) assertPC(c *Term) {
 	m.pc = append(m.pc, c)
 	m.sol.Assert(c)
 	m.remember(c, true)
+	m.updateDomains(c)
 	if len(m.pool) > 0 {
 		keep := m.pool[:0]
 		for _, as := range m.pool {
@@ -264,6 +271,164 @@ func (m *Machine) assertPC(c *Term) {
 		}
 		m.pool = keep
 	}
+}
+
+// byteVar reports whether c depends on exactly one variable, of 8 bits, and on no
+// uninterpreted function.
+func byteVar(c *Term) (*Term, bool) {
+	vs, ok := varsOf(c)
+	if !ok || len(vs) != 1 || vs[0].w != 8 {
+		return nil, false
+	}
+	if c.tt == nil && c.HasOp(OpUF) {
+		return nil, false
+	}
+	return vs[0], true
+}
+
+func (m *Machine) domain(v *Term) *[4]uint64 {
+	d := m.dom[v.name]
+	if d == nil {
+		d = &[4]uint64{^uint64(0), ^uint64(0), ^uint64(0), ^uint64(0)}
+		m.dom[v.name] = d
+	}
+	return d
+}
+
+// specialize replaces single-byte subterms that are constant over the current domain of
+// their variable by that constant (e.g. utf8's first[b0] once b0 is known to be a 2-byte
+// lead), so that a condition over two bytes becomes a condition over one.
+func (m *Machine) specialize(t *Term, depth int) *Term {
+	if t.op == OpConst || t.op == OpVar || depth > 60 {
+		return t
+	}
+	vs, few := varsOf(t)
+	if len(vs) == 0 {
+		return t
+	}
+	if few && len(vs) == 1 && vs[0].w == 8 && !m.multi[vs[0].name] && !t.HasOp(OpUF) {
+		d := m.dom[vs[0].name]
+		if d == nil {
+			return t
+		}
+		vec := byteVec(t)
+		first := true
+		var val uint64
+		for x := 0; x < 256; x++ {
+			if d[x>>6]&(1<<(uint(x)&63)) == 0 {
+				continue
+			}
+			if first {
+				val, first = vec[x], false
+			} else if vec[x] != val {
+				return t
+			}
+		}
+		if first {
+			return t
+		}
+		return K(int(t.w), val)
+	}
+	if t.op == OpUF {
+		return t
+	}
+	changed := false
+	args := make([]*Term, len(t.args))
+	for i, a := range t.args {
+		args[i] = m.specialize(a, depth+1)
+		if args[i] != a {
+			changed = true
+		}
+	}
+	if !changed {
+		return t
+	}
+	switch t.op {
+	case OpAdd, OpSub, OpMul, OpUDiv, OpSDiv, OpURem, OpSRem, OpAnd, OpOr, OpXor, OpShl, OpLShr, OpAShr:
+		return Bin(t.op, args[0], args[1])
+	case OpEq, OpUlt, OpUle, OpSlt, OpSle:
+		return Cmp(t.op, args[0], args[1])
+	case OpNot:
+		return Not(args[0])
+	case OpNeg:
+		return Neg(args[0])
+	case OpIte:
+		return Ite(args[0], args[1], args[2])
+	case OpZext:
+		return Zext(args[0], int(t.w))
+	case OpSext:
+		return Sext(args[0], int(t.w))
+	case OpExtract:
+		return Extract(args[0], int(t.val), int(t.w))
+	case OpConcat:
+		return Concat(args[0], args[1])
+	case OpBAnd:
+		return BAnd(args[0], args[1])
+	case OpBOr:
+		return BOr(args[0], args[1])
+	case OpBNot:
+		return BNot(args[0])
+	}
+	return t
+}
+
+func (m *Machine) updateDomains(c *Term) {
+	if _, single := byteVar(c); !single {
+		if vs, few := varsOf(c); few && len(vs) == 2 {
+			c = m.specialize(c, 0)
+			if c.op == OpConst {
+				return
+			}
+		}
+	}
+	if v, ok := byteVar(c); ok {
+		d := m.domain(v)
+		tt := truthTable(c)
+		for i := range d {
+			d[i] &= tt[i]
+		}
+		return
+	}
+	vs, _ := varsOf(c)
+	for _, v := range vs {
+		m.multi[v.name] = true
+	}
+	if len(vs) > 2 || c.HasOp(OpUF) {
+		// more variables than tracked: collect them all
+		all := map[string]uint8{}
+		c.CollectVars(all)
+		for n := range all {
+			m.multi[n] = true
+		}
+	}
+}
+
+// domainSplit decides a single-byte condition by enumeration: exact when every constraint on
+// that byte so far is a single-variable one (the others cannot restrict it).
+func (m *Machine) domainSplit(c *Term) (canT, canF, ok bool) {
+	if _, single := byteVar(c); !single {
+		if vs, few := varsOf(c); few && len(vs) == 2 {
+			c = m.specialize(c, 0)
+			if c.op == OpConst {
+				return c.val == 1, c.val == 0, true
+			}
+		}
+	}
+	v, isByte := byteVar(c)
+	if !isByte || m.multi[v.name] {
+		return false, false, false
+	}
+	d := m.domain(v)
+	tt := truthTable(c)
+	for i := range d {
+		if d[i]&tt[i] != 0 {
+			canT = true
+		}
+		if d[i]&^tt[i] != 0 {
+			canF = true
+		}
+	}
+	return canT, canF, true
 }
 
 func (m *Machine) remember(c *Term, val bool) {
@@ -331,7 +496,41 @@ func (m *Machine) branch(c *Term) bool {
 		m.dpos++
 		return v
 	}
+	if canT, canF, ok := m.domainSplit(c); ok && !m.cfg.NoFastPath {
+		m.DomHits++
+		switch {
+		case canT && canF:
+			w := make([]int32, len(m.decisions)+1)
+			copy(w, m.decisions)
+			w[len(m.decisions)] = 0
+			m.newWork = append(m.newWork, w)
+			m.decisions = append(m.decisions, 1)
+			m.dpos++
+			m.assertPC(c)
+			return true
+		case canT:
+			m.decisions = append(m.decisions, 1|forcedBit)
+			m.dpos++
+			m.remember(c, true)
+			return true
+		case canF:
+			m.decisions = append(m.decisions, 0|forcedBit)
+			m.dpos++
+			m.remember(c, false)
+			return false
+		default:
+			m.end(EndInfeasible, "empty byte domain")
+		}
+	}
 	m.branches++
+	if os.Getenv("VF_BRANCHLOG") != "" {
+		vs, few := varsOf(c)
+		x := c.String()
+		if len(x) > 300 {
+			x = x[:300]
+		}
+		fmt.Fprintf(os.Stderr, "BRANCHQ vars=%d few=%v %s\n", len(vs), few, x)
+	}
 	nc := BNot(c)
 	rT := m.checkFeasible(c)
 	if rT == Unsat {
@@ -601,6 +800,8 @@ func (m *Machine) resetPath(prefix []int32) {
 	m.cardBoundT = nil
 	m.cardBoundN = 0
 	m.known = map[uint64][]knownCond{}
+	m.dom = map[string]*[4]uint64{}
+	m.multi = map[string]bool{}
 	m.pool = m.pool[:0]
 	m.initGlobals()
 }
@@ -654,7 +855,8 @@ func (m *Machine) RunPath(fn *ssa.Function, prefix []int32) (res PathResult, wor
 			}()
 			m.call(nil, token.NoPos, fn, nil)
 		}()
-		// harness returned: any goroutine left?
+		// harness returned: let runnable goroutines finish or block, then see who is left
+		m.quiesce()
 		var left []string
 		for _, g := range m.gs[1:] {
 			if !g.done {
@@ -685,6 +887,30 @@ func (m *Machine) RunPath(fn *ssa.Function, prefix []int32) (res PathResult, wor
 }
 
 func (c Config) allowLeak() bool { return false }
+
+// quiesce runs the other goroutines until none of them is runnable.
+func (m *Machine) quiesce() {
+	for iter := 0; iter < 10000; iter++ {
+		var next *G
+		for _, g := range m.gs {
+			if g != m.cur && !g.done && !g.blocked {
+				next = g
+				break
+			}
+		}
+		if next == nil {
+			return
+		}
+		// park the main goroutine as "blocked on quiesce" so that dispatch returns to it only
+		// when nobody else can run
+		m.cur.blocked = true
+		m.cur.blockedOn = "harness end"
+		m.quiescing = true
+		m.switchTo(next)
+		m.quiescing = false
+		m.cur.blocked = false
+	}
+}
 
 func (m *Machine) sampleString() string {
 	var parts []string
